@@ -46,6 +46,7 @@ type ColumnDef struct {
 	AutoIncrement bool
 	Null          bool
 	Unique        bool
+	UniqueFirst   bool // has both, and UNIQUE was given before PRIMARY KEY
 	Default       interface{}
 	Collate       string
 	References    *ForeignKeyClause
@@ -80,6 +81,7 @@ func makeColumnDef(name string, typ string, cs []columnConstraint) ColumnDef {
 			cd.Null = bool(v)
 		case ccPrimaryKey:
 			cd.PrimaryKey = true
+			cd.UniqueFirst = cd.Unique
 			cd.PrimaryKeyDir = SortOrder(v.sort)
 			cd.AutoIncrement = v.autoincrement
 		case ccUnique:
